@@ -168,6 +168,10 @@ class Ctx:
                    'VERIF_SHARD': str(shard[0]), 'VERIF_NSHARDS': str(shard[1]), 'HOME': home,
                    'VERIF_SCRATCH': self.scratch})
         e.pop('GOOM_DEBUG', None)
+        # The recorded finding C11/preempted-on-overhanging-entry-jump (a goroutine interrupted inside an entry jump kills the
+        # runtime's unwinder) is C11's to observe; every other check runs without asynchronous preemption signals so that
+        # this one-in-10^8-calls hazard cannot surface as an alarm for an unrelated property.
+        e['GODEBUG'] = 'asyncpreemptoff=1'
         if env:
             e.update(env)
         cmd = [binary, '-test.run', run, '-test.timeout', '0']
@@ -242,16 +246,27 @@ class Ctx:
             key = crash_key or (self.id + '/crash')
             if isinstance(case, dict) and case.get('crashkey'):
                 key = case['crashkey']
-            # recogniser for one recorded finding: the runtime unwinder dies on a pc at entry+11 (the second
-            # instruction of goom's 13-byte entry jump) of a mocked function whose own code is shorter than that
+            # recogniser for one recorded finding: a goroutine is interrupted INSIDE goom's 13-byte entry jump (pc = entry+1 or
+            # entry+11) of a mocked function; the runtime's pc-indexed tables describe the ORIGINAL bytes there, so the
+            # unwinder dies: either 'invalid pc-encoded table' (function shorter than the jump) or a mis-walked frame
+            # ('unknown caller pc' / fault in runtime.(*unwinder).next) when the original prologue had already moved SP.
             try:
-                m = re.search(r'invalid pc-encoded table f=(\S+) pc=0x([0-9a-f]+) targetpc=0x([0-9a-f]+)', txt)
                 ents = case.get('entries') if isinstance(case, dict) else None
-                if m and ents and m.group(1) in ents:
-                    entry, end, tpc = int(ents[m.group(1)]), int(m.group(2), 16), int(m.group(3), 16)
-                    if tpc == entry + 11 and end - entry < 13:
-                        key = self.id + '/preempted-on-overhanging-entry-jump'
-                        tail = 'runtime unwinder: pc %#x = entry+11 of mocked %s whose code is only %d bytes' % (tpc, m.group(1), end - entry)
+                if ents:
+                    m = re.search(r'invalid pc-encoded table f=(\S+) pc=0x([0-9a-f]+) targetpc=0x([0-9a-f]+)', txt)
+                    if m and m.group(1) in ents:
+                        entry, end, tpc = int(ents[m.group(1)]), int(m.group(2), 16), int(m.group(3), 16)
+                        if tpc == entry + 11 and end - entry < 13:
+                            key = self.id + '/preempted-on-overhanging-entry-jump'
+                            tail = 'runtime unwinder: pc %#x = entry+11 of mocked %s whose code is only %d bytes' % (tpc, m.group(1), end - entry)
+                    unw = ('unknown caller pc' in txt or 'unexpected return pc' in txt or
+                           re.search(r'SIGSEGV[^\n]*\n[^\n]*\n\n?goroutine 0[^\n]*\nruntime\.\(\*unwinder\)\.next', txt))
+                    if unw and not m:
+                        for fm in re.finditer(r'^(\S+)\([^\n]*\)\n\t[^\n]* \+0x(1|b) fp=', txt, re.M):
+                            if fm.group(1) in ents:
+                                key = self.id + '/preempted-on-overhanging-entry-jump'
+                                tail = 'runtime unwinder mis-walked a goroutine interrupted at %s+0x%s, inside the entry jump' % (fm.group(1), fm.group(2))
+                                break
                 if isinstance(case, dict):
                     case.pop('entries', None)
             except Exception:
